@@ -32,6 +32,16 @@ Diff(m, o) ==
     ELSE IF ReqsCore(m.reqs) # ReqsCore(o.reqs) THEN "reqs"
     ELSE ""
 
+\* C04 with the known finding classified by the model: a consistency error of a run that the model
+\* reproduces (same code) and in which a call's arguments failed while a call state was waiting unconsumed
+InvC04K ==
+    (IsRun => (C04(pre, Last) \/
+               LET m == ModelOutcome(pre, Last) IN
+               IF ~m.unsup /\ m.code = Last.out.code /\ m.kf1
+               THEN PrintT(<<"VIOLATION", "C04", Last.hid, Last.step, "args-failed-after-sent">>)
+               ELSE PrintT(<<"VIOLATION", "C04", Last.hid, Last.step>>)))
+    /\ (IsObs => Report("C04", C04obs(Last)))
+
 InvConf ==
     IsRun =>
         LET e == Last
